@@ -320,3 +320,9 @@ for _p in ("C07", "C17"):
     PROPS[_p]["files"] = list(dict.fromkeys(PROPS[_p]["files"] + ["proofs/EngineProofs.v", "proofs/BisimProofs.v", "props/%s.v" % _p]))
 PROPS["C17"]["prop_files"] = ["props/C17.v", "props/C17i.v"]
 PROPS["C17"]["prop_file"] = "props/C17.v"
+
+# the cache component carries C05's limits and C08/C20's size accounting: its driver runs there too
+for _p in ("C05", "C08", "C20"):
+    PROPS[_p]["drivers"] = [{"name": "cache", "n_quick": 250, "n_thorough": 3000}] + PROPS[_p]["drivers"]
+    PROPS[_p]["model_files"] = list(dict.fromkeys(PROPS[_p]["model_files"] + ["corr/CacheCorr.v"]))
+    PROPS[_p]["rule"] = "cache component: " + PROPS["C09"]["rule"] + " || engine level: " + PROPS[_p]["rule"]
